@@ -256,7 +256,6 @@ func runC05Case(c *c05Case, name string) *c05Result {
 		s.w.Broker.SetGate(skewTopic, 0)
 	}
 	// ---- recovery: restart a dead child, resume paused tasks, until everything is acked or no progress ----
-	want := rs.allDataUIDs()
 	var missing []int64
 	for attempt := 0; attempt < 4; attempt++ {
 		select {
@@ -274,7 +273,22 @@ func runC05Case(c *c05Case, name string) *c05Result {
 				s.api("resume", map[string]any{"task_id": id})
 			}
 		}
-		missing = rs.waitAcked(want, 25*time.Second)
+		// a sentinel row at the end of every stream: a stream delivers in order, so once the sentinel is acked by
+		// the current incarnation, every earlier row of that stream has either been acked or will never be
+		// (the verdict on it is final and does not wait for a watchdog)
+		var sentinels []int64
+		for ci, c := range rs.colls {
+			if c == nil {
+				continue
+			}
+			for si := range c.Shards {
+				if d, err := rs.send("insert", ci, si, 0, 1); err == nil {
+					sentinels = append(sentinels, d.UID)
+				}
+			}
+		}
+		s.log(sevt{Kind: "note", Note: fmt.Sprintf("sentinels %v", sentinels)})
+		missing = c05WaitAcked(rs, rs.allDataUIDs(), sentinels, 25*time.Second)
 		if len(missing) == 0 {
 			break
 		}
@@ -295,6 +309,39 @@ func runC05Case(c *c05Case, name string) *c05Result {
 	c05Oracle(rs, res, missing)
 	res.replay = map[string]any{"case": c, "sent": rs.sent, "events": tailEvents(s.events(), 1500), "missing": missing, "child_log_tail": s.tailChildLog(1500)}
 	return res
+}
+
+// c05WaitAcked waits until every message of want is acked, or every sentinel is acked after the wait began while
+// the child is alive (then the missing rows are decided), or the watchdog fires / the child dies.
+func c05WaitAcked(rs *runState, want, sentinels []int64, watchdog time.Duration) (missing []int64) {
+	from := rs.s.clock.Load()
+	deadline := time.Now().Add(watchdog)
+	for {
+		acked := rs.ackedUIDs()
+		missing = missing[:0]
+		for _, u := range want {
+			if len(acked[u]) == 0 {
+				missing = append(missing, u)
+			}
+		}
+		sentDone := len(sentinels) > 0
+		for _, u := range sentinels {
+			ok := false
+			for _, c := range acked[u] {
+				if c > from {
+					ok = true
+				}
+			}
+			if !ok {
+				sentDone = false
+			}
+		}
+		if len(missing) == 0 || sentDone || time.Now().After(deadline) || !rs.s.childAlive() {
+			sort.Slice(missing, func(i, j int) bool { return missing[i] < missing[j] })
+			return missing
+		}
+		time.Sleep(20 * time.Millisecond)
+	}
 }
 
 // tailEvents trims the event log for a replay file: store reads and the "after" halves of store calls are
@@ -478,8 +525,9 @@ func c05Oracle(rs *runState, res *c05Result, missing []int64) {
 		// checkpoints a restarted incarnation can have resumed from: per stream, the puts announced before each
 		// child start (the last performed one and, when the process died inside a Put, the announced one)
 		type cp struct {
-			id   uint64
-			time int64
+			id        uint64
+			time      int64
+			performed bool // false: the process died between the announcement and the end of the Put
 		}
 		resumedFrom := map[string][]cp{} // collID/channel -> candidates
 		cur, pending := map[string]cp{}, map[string]cp{}
@@ -488,16 +536,16 @@ func c05Oracle(rs *runState, res *c05Result, missing []int64) {
 				for ch, pe := range e.Store.Positions {
 					k := fmt.Sprintf("%d/%s", e.Store.Coll, ch)
 					if e.Store.Phase == "before" {
-						pending[k] = cp{pe.MsgID, pe.Time}
+						pending[k] = cp{pe.MsgID, pe.Time, false}
 					} else {
 						if e.Store.Err == "" {
-							cur[k] = cp{pe.MsgID, pe.Time}
+							cur[k] = cp{pe.MsgID, pe.Time, true}
 						}
 						delete(pending, k)
 					}
 				}
 			}
-			if e.Kind == "child-exit" || (e.Kind == "api" && strings.HasPrefix(e.API, "resume")) {
+			if e.Kind == "child-exit" || (e.Kind == "api" && e.API == "resume call") {
 				for k, v := range cur {
 					resumedFrom[k] = append(resumedFrom[k], v)
 				}
@@ -510,6 +558,12 @@ func c05Oracle(rs *runState, res *c05Result, missing []int64) {
 			}
 		}
 		lost, lostByTime, lostNoCp, stuck := []string{}, []string{}, []string{}, 0
+		lastStart := int64(0) // clock at which the readers were (re)started last: child restart or task resume
+		for _, e := range evs {
+			if (e.Kind == "child-start" && e.Inc == lastInc && e.Inc > 1) || (e.Kind == "api" && e.API == "resume reply" && e.Code == 200) {
+				lastStart = e.Clock
+			}
+		}
 		for _, u := range missing {
 			d := uidMsg[u]
 			if maxAckedLast[skey{d.Coll, d.Shard}] <= d.MsgID {
@@ -527,9 +581,16 @@ func c05Oracle(rs *runState, res *c05Result, missing []int64) {
 					}
 				}
 			}
-			if c := rs.colls[d.Coll]; c != nil && !explained && len(resumedFrom[fmt.Sprintf("%d/%s", c.ID, d.PChan)]) == 0 && lastInc > 1 {
-				lostNoCp = append(lostNoCp, desc)
-				continue
+			if c := rs.colls[d.Coll]; c != nil && !explained && d.SentAt < lastStart {
+				// no checkpoint of this stream had been written for certain when the readers went away
+				performed := false
+				for _, v := range resumedFrom[fmt.Sprintf("%d/%s", c.ID, d.PChan)] {
+					performed = performed || v.performed
+				}
+				if !performed {
+					lostNoCp = append(lostNoCp, desc)
+					continue
+				}
 			}
 			if explained {
 				lostByTime = append(lostByTime, desc)
